@@ -323,6 +323,128 @@ theorem sessOp_one (cfg : Cfg) (n : Node) (sid : Nat) (mode : Mode) (op : Op) (h
     | none => exact one_of_quiet (quiet_trans this (quiet_of_eq rfl rfl))
   | _ => exact one_of_quiet (quiet_refl n)
 
+/-- the undo of the first write of a failed CommissioningComplete: nothing, or one removal -/
+theorem undoAdded_hist (n : Node) (idx : Nat) :
+    ((undoAdded n idx).kv = n.kv ∧ (undoAdded n idx).hist = n.hist) ∨
+    ((undoAdded n idx).kv = n.kv.delFabric idx ∧ (undoAdded n idx).hist = n.kv.delFabric idx :: n.hist) := by
+  unfold undoAdded
+  split
+  · have ⟨_, _, _, hst⟩ := removeFabricKey_spec n idx
+    rcases hst with ⟨_, _, ⟨hkv, hh⟩ | ⟨hkv, hh⟩⟩ | ⟨_, hkv, hh⟩
+    · exact Or.inr ⟨hkv, hh⟩
+    · exact Or.inl ⟨hkv, hh⟩
+    · exact Or.inl ⟨hkv, hh⟩
+  · exact Or.inl ⟨rfl, rfl⟩
+
+theorem undoAdded_one (n : Node) (idx : Nat) : One n (undoAdded n idx) := by
+  rcases undoAdded_hist n idx with ⟨hkv, hh⟩ | ⟨hkv, hh⟩
+  · exact one_of_quiet (quiet_of_eq hkv hh)
+  · intro kv hk
+    rw [hh] at hk
+    rcases List.mem_cons.mp hk with rfl | hk
+    · exact Or.inr (Or.inr (by rw [hkv]; exact KV.Same.refl _))
+    · exact Or.inl hk
+
+/-! ### the undo of a half-done CommissioningComplete -/
+
+theorem kvTick_bad_failIn (n : Node) (h : (kvTick n).2 = true) : (kvTick n).1.failIn = 0 := by
+  unfold kvTick at h ⊢
+  split
+  · rename_i h0; simp [h0] at h
+  · split
+    · rfl
+    · rename_i h0 h1; simp [h0, h1] at h
+
+theorem storeNets_fail_failIn (n : Node) (h : (storeNets n).2 = false) : (storeNets n).1.failIn = 0 := by
+  have hb := kvTick_bad_failIn n
+  unfold storeNets at h ⊢
+  rcases ht : kvTick n with ⟨n1, bad⟩
+  rw [ht] at hb
+  simp only [ht] at h ⊢
+  cases bad with
+  | true => exact hb rfl
+  | false => simp at h
+
+theorem removeFabricKey_calm {n : Node} (idx : Nat) (h : n.failIn = 0) :
+    removeFabricKey n idx = (if n.kv.hasFabric idx then kvCommit n (n.kv.delFabric idx) else n, true) := by
+  have hk : kvTick n = (n, false) := by simp [kvTick, h]
+  simp only [removeFabricKey, hk]
+  by_cases hf : n.kv.hasFabric idx = true <;> simp [hf]
+
+/-- **The repaired half of `C08-complete-partial-commit` / `C11-complete-store-failure`**: a
+CommissioningComplete for a fabric ADDED under the fail-safe (it has no stored record) that is not
+acknowledged - whichever of its two writes fails - leaves the store, on the fabric records and the
+networks, exactly as it was: when the networks cannot be stored, the fabric record just written is
+removed again. (An injected fault hits one call, so the removal itself does not fail.) -/
+theorem failed_complete_of_added_fabric_undone (cfg : Cfg) (n : Node) (sid s : Nat) (mode : Mode) (a : Armed)
+    (hfs : n.fs = some a) (hadd : a.flags.addNoc = true) (hnone : kvF n.kv mode.fab = none)
+    (hfail : (sessOp cfg n sid mode (.complete s)).2 ≠ .ok) :
+    KV.Same (sessOp cfg n sid mode (.complete s)).1.kv n.kv := by
+  simp only [sessOp] at hfail ⊢
+  cases hca : checkArmed n mode with
+  | some e => exact KV.Same.refl _
+  | none =>
+    have hab : a.fab = mode.fab := by
+      unfold checkArmed at hca
+      rw [hfs] at hca
+      by_cases hh : a.fab = mode.fab
+      · exact hh
+      · simp [hh] at hca
+    rw [hca] at hfail
+    simp only [] at hfail ⊢
+    split
+    · exact KV.Same.refl _
+    · rename_i hcase
+      simp only [hcase, if_false] at hfail
+      cases hg : getFabric n mode.fab with
+      | none => exact KV.Same.refl _
+      | some f =>
+        have hidx := getFabric_idx hg
+        rw [hg] at hfail
+        simp only [] at hfail ⊢
+        have ⟨hfr1, hst1⟩ := storeFabric_spec n f
+        rcases hr1 : storeFabric n f with ⟨n1, b1⟩
+        rw [hr1] at hfr1 hst1 hfail
+        simp only at hfr1 hst1 hfail
+        rcases hst1 with ⟨hb1, hkv1, _⟩ | ⟨hb1, hkv1, _⟩
+        · subst hb1
+          simp only [] at hfail ⊢
+          have ⟨hfr2, hst2⟩ := storeNets_spec { n1 with managed := true }
+          have hfi := storeNets_fail_failIn { n1 with managed := true }
+          rcases hr2 : storeNets { n1 with managed := true } with ⟨n2, b2⟩
+          rw [hr2] at hfr2 hst2 hfail hfi
+          simp only at hfr2 hst2 hfail hfi
+          cases b2 with
+          | true => simp [ok] at hfail
+          | false =>
+            simp only []
+            rcases hst2 with ⟨hb, _⟩ | ⟨_, hkv2, _⟩
+            · cases hb
+            · have hkv2' : n2.kv = n.kv.putFabric f := by rw [hkv2]; exact hkv1
+              have hfs2 : n2.fs = some a := by rw [hfr2.fs]; exact hfr1.fs.trans hfs
+              have hadding : addingFabric { n2 with managed := n1.managed } f.idx = true := by
+                unfold addingFabric
+                simp only [hfs2, hab, hidx, hadd, beq_self_eq_true, Bool.and_self]
+              unfold undoAdded
+              have hfi' : ({ n2 with managed := n1.managed } : Node).failIn = 0 := hfi rfl
+              rw [if_pos hadding, removeFabricKey_calm f.idx hfi']
+              have hhas : ({ n2 with managed := n1.managed } : Node).kv.hasFabric f.idx = true := by
+                show n2.kv.hasFabric f.idx = true
+                rw [hkv2']
+                simp [KV.hasFabric, KV.putFabric]
+              rw [if_pos hhas]
+              refine ⟨fun i => ?_, ?_⟩
+              · show kvF (n2.kv.delFabric f.idx) i = kvF n.kv i
+                rw [kvF_delFabric, hkv2', kvF_putFabric]
+                by_cases hi : i = f.idx
+                · rw [if_pos hi, hi, hidx, hnone]
+                · rw [if_neg hi, if_neg hi]
+              · show (n2.kv.delFabric f.idx).nets = n.kv.nets
+                rw [hkv2']; rfl
+        · subst hb1
+          simp only []
+          rw [hkv1]; exact KV.Same.refl _
+
 /-- CommissioningComplete: the fabric, then the networks - the snapshot between the two writes is
 the store before the command with the fabric record written -/
 theorem sessOp_complete_snaps (cfg : Cfg) (n : Node) (sid s : Nat) (mode : Mode) :
@@ -378,7 +500,30 @@ theorem sessOp_complete_snaps (cfg : Cfg) (n : Node) (sid s : Nat) (mode : Mode)
                 rw [hkv1]; exact KV.Same.refl _
               · exact Or.inl hk'
           cases b2 with
-          | false => exact hcase _ rfl rfl
+          | false =>
+            simp only []
+            rcases undoAdded_hist { n2 with managed := n1.managed } f.idx with ⟨hk0, hh0⟩ | ⟨hk0, hh0⟩
+            · exact hcase _ hk0 hh0
+            · -- the networks were not stored, the fabric record is removed again
+              rcases hst2 with ⟨hb, _⟩ | ⟨_, hkv2, hh2⟩
+              · cases hb
+              · intro kv hk
+                rw [hh0] at hk
+                rcases List.mem_cons.mp hk with rfl | hk
+                · exact Or.inr (Or.inr (Or.inl (by rw [hk0]; exact KV.Same.refl _)))
+                · have hk' : kv ∈ n1.hist := by
+                    have : kv ∈ n2.hist := hk
+                    rw [hh2] at this; exact this
+                  rw [hh1] at hk'
+                  rcases List.mem_cons.mp hk' with rfl | hk'
+                  · refine Or.inr (Or.inr (Or.inr ⟨⟨f, KV.Same.refl _⟩, ?_⟩))
+                    rw [hh0]
+                    show n.hist.length + 2 ≤ (n2.hist).length + 1
+                    rw [hh2]
+                    show n.hist.length + 2 ≤ (n1.hist).length + 1
+                    rw [hh1]
+                    simp
+                  · exact Or.inl hk'
           | true => exact hcase _ rfl rfl
         · subst hb1
           simp only []
